@@ -49,6 +49,18 @@ def run(c):
             raise vf.FrameworkError("%s executed %d of %d" % (fam, stats["n"], len(items)))
         total += stats["n"] + stats["flips"]
         stats_all[fam] = stats
+    # an image whose sections overlap (one section's raw data nested in another's): every byte of both is covered
+    nitems = [{"sc": 3000000 + k, "bits": bt, "off": off, "trail": tr} for k, (bt, off, tr) in enumerate([(64, 16, 0), (64, 0, 5), (32, 80, 3), (64, 40, 8), (32, 8, 0)])]
+    nitems += [dict(s, sc=s["sc"] + 100, libsigned=True) for s in nitems]
+    res, deaths = c.run_worker("imgnested", nitems, env=env)
+    for s in nitems:
+        for ev in res.get(s["sc"], []):
+            total += 1 + ev.get("flips", 0)
+            if not ev.get("agree", False):
+                c.reproduce("imgnested", s["sc"], lambda evs: any(not e.get("agree", True) for e in evs), env=env)
+                c.report("imgnested:" + (ev.get("bad") or ["?"])[0].split(":")[0], "; ".join(ev.get("bad") or []), dict({"case": s}, **c.rp("imgnested", s)))
+        if s["sc"] in deaths:
+            c.report("death:imgnested", "process died verifying an image with nested sections", {"case": s, "death": deaths[s["sc"]]})
     # composition with the image-hash specification: every layout of MC_Pe signed over the specification's digest
     import c01
     if c.quick:
